@@ -715,3 +715,8 @@ _OLD_RK = '        ranks = self.base.edges.groupby("type").rank()["global_edge_i
 for _p in ("C08", "C19", "C09"):
     P(_p, BASE, _OLD_RK, '        return self.base.edges.groupby("type").cumcount().to_numpy()')
 B("C08", BASE, _OLD_RK, '        return (self.base.edges.groupby("type").cumcount() + 1).to_numpy()', "R-C08-space")
+# init_states: the dictionaries handed to init_state as comprehensions
+_OLD_IS = "            channel_params = query_channel_states_and_params(\n                params, channel_param_names, channel_indices\n            )\n\n            init_state = channel.init_state("
+P("C14", BASE, _OLD_IS, "            channel_params = {p: params[p][channel_indices] for p in channel_param_names}\n\n            init_state = channel.init_state(")
+B("C14", BASE, _OLD_IS, "            channel_params = {p: params[p] for p in channel_param_names}\n\n            init_state = channel.init_state(", "R-C14-rows")
+B("C14", BASE, _OLD_IS, "            channel_params = {p: params[p][channel_indices] for p in channel_state_names}\n\n            init_state = channel.init_state(", "R-C14-rows")
